@@ -9,3 +9,5 @@ const hooksOn = false
 func walkOf[PK any, K comparable, V any](e *lru.ECache[PK, K, V]) func() walkRes {
 	return func() walkRes { return walkRes{} }
 }
+
+func withLockOf[PK any, K comparable, V any](e *lru.ECache[PK, K, V]) func(func()) { return nil }
